@@ -359,6 +359,46 @@ def _from_scalars(part, db):
                         part.add("outcomes", ("fromscalars", n))
 
 
+def _int_ndarrays(part, db):
+    """An integer-dtype ndarray on one side, fractional amounts in a list / tuple / float ndarray on the other
+    (and the other way round): elements equal the Scalar results - nothing is coerced to the integer dtype."""
+    hs = pool(db, False)
+    ints = [6, -7, 13]
+    fracs = [2.0, 0.25, -1.5]
+    for ha in hs[:12]:
+        for hb in hs[:12]:
+            qa = algebra.replay(ha, algebra.BASIS, algebra.PRIMES).GetQuantity()
+            qb = algebra.replay(hb, algebra.BASIS, algebra.PRIMES).GetQuantity()
+            for op in OPS:
+                for dtype in (np.int64, np.int32):
+                    for kb in KINDS:
+                        for int_left in (True, False):
+                            part.count("evaluations")
+                            part.count("int_ndarray_operands")
+                            ia = Array.CreateWithQuantity(qa if int_left else qb, np.array(ints, dtype=dtype))
+                            fb = Array.CreateWithQuantity(qb if int_left else qa, _mk(kb, fracs))
+                            a, b = (ia, fb) if int_left else (fb, ia)
+                            try:
+                                ref = [_apply(op, Scalar.CreateWithQuantity(a.GetQuantity(), float(x)), Scalar.CreateWithQuantity(b.GetQuantity(), float(y))) for x, y in zip(a.values, b.values)]
+                            except Exception:
+                                ref = None
+                            try:
+                                r = _apply(op, a, b)
+                            except Exception as e:
+                                r = e
+                            sig = "C10:int-ndarray:%s[%s] %s %s[%s]" % (algebra.describe(ha), ("ndarray %s" % dtype.__name__) if int_left else kb, op, algebra.describe(hb), kb if int_left else ("ndarray %s" % dtype.__name__))
+                            if ref is None:
+                                if not isinstance(r, Exception):
+                                    part.violation(sig + ":accepted what the Scalar path rejects", {"result": repr(r)})
+                                continue
+                            if isinstance(r, Exception):
+                                part.violation(sig + ":raised", {"error": repr(r)})
+                                continue
+                            vals = [float(v) for v in r.values]
+                            if len(vals) != 3 or not all(_elem_ok(op, g, w.value) for g, w in zip(vals, ref)) or r.GetQuantity() != ref[0].GetQuantity():
+                                part.violation(sig + ":values differ from the Scalar results", {"got": vals, "scalars": [w.value for w in ref], "quantity": repr(r.GetQuantity())})
+
+
 def _task(task):
     if task[0] == "ops":
         return _ops_task(task[1])
@@ -368,6 +408,8 @@ def _task(task):
     with worlds.world("posc") as db:
         if task[0] == "own":
             _derived_own_unit(part, db)
+        elif task[0] == "ints":
+            _int_ndarrays(part, db)
         else:
             _from_scalars(part, db)
     return part
@@ -382,7 +424,7 @@ def run(ctx):
             tasks += [("conv", qts[i::32]) for i in range(32)]
         else:
             tasks += [("conv", [qt]) for qt in ("length", "time", "mass", "temperature", "pressure", "volume")]
-    tasks += [("own", None), ("fromscalars", None)]
+    tasks += [("own", None), ("fromscalars", None), ("ints", None)]
     run_sharded(ctx, _task, tasks)
     c = ctx.part.counters
     ctx.level = "exploration"
